@@ -190,6 +190,23 @@ def main(mod, argv=None):
         chunk = max(1, min(64, n // (workers * 4) or 1))
         for lo in range(0, n, chunk):
             tasks.append((mod.__name__, prop, seed, tier, fam, lo, min(n, lo + chunk)))
+    # determinism spot check, recorded in the evidence: the first run of every
+    # family, executed twice in this process, must give identical results
+    spot = {"runs": 0, "mismatches": []}
+    if not os.environ.get("EON_VERIF_NO_SPOTCHECK"):
+        for fam, n in plan:
+            if fam in ("law", "xproc"):
+                continue
+            d = []
+            for _ in range(2):
+                try:
+                    r = mod.run_one(fam, derive_rng(seed, prop, fam, 0), 0, tier) or {}
+                except Exception:
+                    r = {"error": traceback.format_exc()[-300:]}
+                d.append(hashlib.sha256(jdump(r).encode()).hexdigest())
+            spot["runs"] += 1
+            if d[0] != d[1]:
+                spot["mismatches"].append(fam)
     results = []
     try:
         if workers <= 1:
@@ -305,6 +322,8 @@ def main(mod, argv=None):
             lines.append("  %s" % (str(v.get("msg"))[:600]))
             if len(seen) >= 8:
                 break
+    if spot["mismatches"]:
+        harness.append("determinism spot check failed for families %r" % spot["mismatches"])
     if harness:
         lines.append("HARNESS-ERROR property=%s count=%d first=%s" %
                      (prop, len(harness), harness[0][:2000]))
@@ -332,6 +351,7 @@ def main(mod, argv=None):
         "workers": workers,
         "components": getattr(mod, "COMPONENTS", {}),
         "harness_errors": len(harness),
+        "determinism_spotcheck": spot,
     }
     write_evidence(prop, tier, seed, getattr(mod, "LEVEL", "exploration"),
                    coverage, list(getattr(mod, "ASSUMPTIONS", [])), wall,
